@@ -1,7 +1,8 @@
 (* C13 - Well-formed docstrings parse back to the structure that was written.  Statements only. *)
 From Coq Require Import List Ascii String Bool Arith.
 From Verif Require Import Model.C13_strings Model.C13_google Model.C13_google_spec Model.C13_sphinx Model.C13_numpy Model.C13_numpy_spec
-  Model.C13_sphinx_spec Proofs.C13_strings Proofs.C13_google Proofs.C13_sphinx Proofs.C13_numpy Proofs.C13_sphinx_full.
+  Model.C13_sphinx_spec Model.C13_history
+  Proofs.C13_strings Proofs.C13_google Proofs.C13_sphinx Proofs.C13_numpy Proofs.C13_sphinx_full Proofs.C13_history.
 Import ListNotations.
 Open Scope list_scope.
 Open Scope nat_scope.
@@ -208,3 +209,70 @@ Print Assumptions C13_sphinx_type_after_param_refuted_F8.
 Theorem C13_sphinx_full_wf_satisfiable : wf_sphinx_full xsample_text xsample = true /\ gap_F8 xsample_ctx xsample = false.
 Proof. exact xsample_wf. Qed.
 Print Assumptions C13_sphinx_full_wf_satisfiable.
+
+(* ---- histories: several Docstring objects whose configured options live in SHARED dictionaries (one per load), any sequence
+   of parse(style, **options) / .parsed calls on any of them, assignments of a new options dictionary to a docstring and
+   writes into a configured dictionary (Model/C13_history.v).  The configuration (every dictionary of the heap, every
+   docstring's lines, parent, parser and reference to its dictionary) after a history is the configuration after its explicit
+   writes alone: parse and parsed leave no trace. *)
+Theorem C13_history_config_is_writes : forall ops st1 st2, config st1 = config st2 ->
+  config (fst (hexec st1 ops)) = config (fst (hexec st2 (writes_only ops))).
+Proof. exact history_config_is_writes. Qed.
+Print Assumptions C13_history_config_is_writes.
+
+(* parse never mutates configured options. *)
+Theorem C13_parse_preserves_options : forall st ops, read_only ops = true -> config (fst (hexec st ops)) = config st.
+Proof. exact parse_preserves_options. Qed.
+Print Assumptions C13_parse_preserves_options.
+
+(* After ANY history a parse call returns what it returns on docstrings that only saw the explicit writes of that history:
+   the result is parse_pure of the current lines, the style given or configured, and the per-call options or else the
+   current content of the dictionary the docstring refers to. *)
+Theorem C13_history_parse_is_pure : forall st ops i s o,
+  snd (hstep (fst (hexec st ops)) (HParse i s o)) = snd (hstep (fst (hexec st (writes_only ops))) (HParse i s o)).
+Proof. exact history_parse_is_pure. Qed.
+Print Assumptions C13_history_parse_is_pure.
+
+(* The round-trip theorems hold after any history of parse / parsed calls (any docstrings, any per-call options, shared
+   dictionaries): well-formedness is judged under the options in force for THIS call. *)
+Theorem C13_google_roundtrip_after_history : forall st ops i d o ind secs, read_only ops = true ->
+  nth_error (hs_docs st) i = Some d -> 1 <= ind -> hd_lines d = render_google ind secs ->
+  wf_secs (resolve_g (in_force (hs_heap st) d o)) (hp_ctx (hd_parent d)) secs = true ->
+  snd (hstep (fst (hexec st ops)) (HParse i (Some HGoogle) o)) = ObsRes (HG (POk (expect_google (hp_ctx (hd_parent d)) secs))).
+Proof. exact google_roundtrip_after_history. Qed.
+Print Assumptions C13_google_roundtrip_after_history.
+
+Theorem C13_numpy_roundtrip_after_history : forall st ops i d o secs, read_only ops = true ->
+  nth_error (hs_docs st) i = Some d -> hd_lines d = render_numpy secs ->
+  resolve_n (hp_is_init (hd_parent d)) (in_force (hs_heap st) d o) = n_default_opts ->
+  wf_nsecs (hp_ctx (hd_parent d)) secs = true -> gap_F6 (hp_ctx (hd_parent d)) secs = false ->
+  snd (hstep (fst (hexec st ops)) (HParse i (Some HNumpy) o)) = ObsRes (HN (POk (expect_numpy (hp_ctx (hd_parent d)) secs))).
+Proof. exact numpy_roundtrip_after_history. Qed.
+Print Assumptions C13_numpy_roundtrip_after_history.
+
+Theorem C13_sphinx_roundtrip_after_history : forall st ops i d o text fields, read_only ops = true ->
+  nth_error (hs_docs st) i = Some d -> hd_lines d = render_sphinx_full text fields ->
+  wf_sphinx_full text fields = true -> gap_F8 (hp_ctx (hd_parent d)) fields = false ->
+  snd (hstep (fst (hexec st ops)) (HParse i (Some HSphinx) o)) =
+  ObsRes (HS (expect_sphinx_full (hp_ctx (hd_parent d)) (hp_ret_attr (hd_parent d)) text fields)).
+Proof. exact sphinx_roundtrip_after_history. Qed.
+Print Assumptions C13_sphinx_roundtrip_after_history.
+
+(* `parsed` is computed once (documented caching): after its first read no history changes what it returns. *)
+Theorem C13_history_parsed_cached : forall ops st i d r, nth_error (hs_docs st) i = Some d -> hd_parsed d = Some r ->
+  snd (hstep (fst (hexec st ops)) (HReadParsed i)) = ObsRes r.
+Proof. exact history_parsed_cached. Qed.
+Print Assumptions C13_history_parsed_cached.
+
+(* Non-vacuity / aliasing: two docstrings share dictionary 0, a third has its own.  Per-call options on one docstring leave the
+   others alone; a write into the shared dictionary is seen by both sharers only; a new dictionary assigned to one is not
+   seen by the other. *)
+Theorem C13_history_aliasing_example :
+  snd (hexec hx_state [HParse 0 None [(ORetNamed, false)]; HParse 1 None []; HParse 0 None [];
+                       HMutate 0 ORetNamed false; HParse 0 None []; HParse 1 None []; HParse 2 None [];
+                       HSetOptions 0 []; HParse 0 None []; HParse 1 None []]) =
+  [ObsRes hx_unnamed; ObsRes hx_named; ObsRes hx_named;
+   ObsNone; ObsRes hx_unnamed; ObsRes hx_unnamed; ObsRes hx_named;
+   ObsNone; ObsRes hx_named; ObsRes hx_unnamed].
+Proof. exact history_aliasing. Qed.
+Print Assumptions C13_history_aliasing_example.
